@@ -38,6 +38,28 @@ pub assume_specification<T: Clone>[ <T as std::borrow::ToOwned>::to_owned ](x: &
 pub assume_specification<T: Clone>[ <T as std::borrow::ToOwned>::clone_into ](x: &T, target: &mut T)
     ensures cloned::<T>(*x, *final(target));
 
+pub assume_specification<'a>[ <&'a str as PartialEq<String>>::eq ](a: &&'a str, b: &String) -> (r: bool)
+    ensures r == ((*a)@ == b@);
+
+pub assume_specification[ <str as PartialEq<String>>::eq ](a: &str, b: &String) -> (r: bool)
+    ensures r == (a@ == b@);
+
+pub assume_specification[ <String as PartialEq<str>>::eq ](a: &String, b: &str) -> (r: bool)
+    ensures r == (a@ == b@);
+
+/// `String: Borrow<str>` preserves Eq/Hash (std contract): looking up by &str finds the String key with the same characters
+pub broadcast axiom fn axiom_str_borrowed_key<V>(m: Map<String, V>, k: &str)
+    ensures #[trigger] contains_borrowed_key::<String, V, str>(m, k) <==> exists|kk: String| kk@ == k@ && m.contains_key(kk);
+
+pub broadcast axiom fn axiom_str_borrowed_value<V>(m: Map<String, V>, k: &str, v: V)
+    ensures #[trigger] maps_borrowed_key_to_value::<String, V, str>(m, k, v) <==> exists|kk: String| kk@ == k@ && m.contains_key(kk) && m[kk] == v;
+
+pub broadcast axiom fn axiom_string_view_injective(a: String, b: String)
+    ensures (#[trigger] a@ == #[trigger] b@) ==> a == b;
+
+pub broadcast axiom fn axiom_string_key_model()
+    ensures #[trigger] obeys_key_model::<String>();
+
 /// a str / String is determined by its characters
 pub broadcast axiom fn axiom_str_view_injective(a: &str, b: &str)
     ensures (#[trigger] a@ == #[trigger] b@) ==> a == b;
@@ -46,6 +68,10 @@ pub broadcast group group_std_extra {
     axiom_hm_key_is_same,
     axiom_arc_string_key_model,
     axiom_str_view_injective,
+    axiom_str_borrowed_key,
+    axiom_str_borrowed_value,
+    axiom_string_view_injective,
+    axiom_string_key_model,
 }
 
 } // verus!
